@@ -151,3 +151,12 @@ MUTANTS["C13"] = [
     ("make_patch-eq-shortcut", "annet/annlib/jsontools.py", '    """Generate a JSON patch by comparing the old document with the new one."""\n', '    """Generate a JSON patch by comparing the old document with the new one."""\n    if old == new:\n        return []\n'),
     ("chain-uses-original-old", "annet/generators/result.py", "            previous_config: Dict[str, Any] = files[filepath][0]", "            previous_config: Dict[str, Any] = old_files.get(filepath) or {}"),
 ]
+
+MUTANTS["C17"] = [
+    ("not-any-to-not-all", "annet/implicit.py", "            if not any(matched_lines) and row not in config_tree:", "            if (not matched_lines or len(matched_lines) > 1) and row not in config_tree:"),
+    ("recursion-only-under-ignore-rules", "annet/implicit.py", "        for line in matched_lines:\n            implicit_config_tree[line]", "        for line in (matched_lines if rule[\"type\"] == \"ignore\" else []):\n            implicit_config_tree[line]"),
+    # (swapping the merge order of explicit and implicit trees is an equivalent mutant: merge_dicts is a union, the laws are order-insensitive)
+    ("empty-old-not-completed", "annet/gen.py", "            old = merge_dicts(old, implicit.config(old, implicit_rules))", "            old = (old and merge_dicts(old, implicit.config(old, implicit_rules)))"),
+    ("nested-defaults-dropped-again", "annet/implicit.py", '                implicit_config_tree[row] = config(odict(), rule["children"])', "                implicit_config_tree[row] = odict()"),
+    ("default-added-when-row-present-as-prefix", "annet/implicit.py", "            if not any(matched_lines) and row not in config_tree:", "            if not any(l == row for l in matched_lines) and row not in config_tree:"),
+]
